@@ -252,7 +252,7 @@ func (env *SpecEnv) ident(name string) (SpecVal, error) {
 			return v, nil
 		}
 	}
-	if gv, ok := env.vc.ctx.ghostVars[name]; ok {
+	if gv, ok := env.vc.ctx.ghostVars[env.pkgPath()+"::"+name]; ok {
 		t, ty, err := env.vc.ghostVar(env.cur, gv)
 		return SpecVal{T: t, Ty: ty}, err
 	}
@@ -1098,7 +1098,7 @@ func (env *SpecEnv) call(e *Expr) (SpecVal, error) {
 	}
 	// contracted Go function used as a spec function (lemmas)
 	if env.pkg != nil {
-		if fc := vc.ctx.contractFor(env.pkg.Path(), name); fc != nil {
+		if fc := vc.ctx.contracts[env.pkg.Path()+"."+name]; fc != nil {
 			return env.callContracted(fc, name, args)
 		}
 	}
